@@ -177,6 +177,11 @@ var vfFutRespawn map[int]bool
 var (
 	vfFutAskerDefault map[int]time.Duration
 	vfFutSysDefault   time.Duration
+	// vfFutPanicAt: askers (living under a restarting supervisor in that case) that fail at the given instant; their
+	// Restarted hook fails, so they end up as zombies - and are killed later (kills). An Ask outstanding at the failure
+	// may be completed with the actor-dead error right then (the restart ends the incarnation that asked) or at the
+	// latest when the zombie is killed.
+	vfFutPanicAt map[int]time.Duration
 )
 
 func vfFutEffectiveDefault(asker int) time.Duration {
@@ -241,6 +246,40 @@ func vfGenKillRace(rng *verifrt.Rand) (nAskers, nResp int, asks []vfAskSpec, kil
 	return
 }
 
+// vfGenZombieAsker: asker 0 has outstanding Asks, fails, is restarted by its supervisor, its Restarted hook fails (zombie),
+// and it is killed later. A second asker is a bystander.
+func vfGenZombieAsker(rng *verifrt.Rand) (nAskers, nResp int, asks []vfAskSpec, kills map[int]time.Duration) {
+	nAskers, nResp = 2, 1+rng.Intn(2)
+	tp := []time.Duration{time.Millisecond, 10 * time.Millisecond, 50 * time.Millisecond}[rng.Intn(3)]
+	tk := tp + []time.Duration{time.Millisecond, 20 * time.Millisecond, 200 * time.Millisecond}[rng.Intn(3)]
+	vfFutPanicAt[0] = tp
+	kills = map[int]time.Duration{0: tk}
+	n := 2 + rng.Intn(10)
+	for i := 0; i < n; i++ {
+		a := vfAskSpec{AskID: i + 1, At: 0, Asker: 0, Responder: rng.Intn(nResp), Script: "never", CloseAt: -1, PipeAt: -1, Waiters: 1 + rng.Intn(2), UseWait: rng.Bool()}
+		switch rng.Intn(4) {
+		case 0:
+			a.Script, a.Delay = "after", 2*time.Second // the reply comes long after the death
+		case 1:
+			a.Script, a.Delay = "after", tp/2+1 // answered before the failure
+		}
+		switch rng.Intn(4) {
+		case 0:
+			a.TimeoutSet, a.Timeout = true, 0
+		case 1: // default
+		case 2:
+			a.TimeoutSet, a.Timeout = true, 2*time.Second
+		case 3:
+			a.TimeoutSet, a.Timeout = true, tp+(tk-tp)/2 // due between the failure and the kill
+		}
+		if rng.Chance(20) {
+			a.Asker = 1
+		}
+		asks = append(asks, a)
+	}
+	return
+}
+
 func vfGenFutures(rng *verifrt.Rand) (nAskers, nResp int, asks []vfAskSpec, kills map[int]time.Duration) {
 	vfFutRespawn = map[int]bool{}
 	vfFutAskerDefault = map[int]time.Duration{}
@@ -248,8 +287,12 @@ func vfGenFutures(rng *verifrt.Rand) (nAskers, nResp int, asks []vfAskSpec, kill
 	for k := 0; k < 5; k++ {
 		vfFutAskerDefault[k] = []time.Duration{0, 0, 50 * time.Millisecond, 300 * time.Millisecond, 1500 * time.Millisecond}[rng.Intn(5)]
 	}
+	vfFutPanicAt = map[int]time.Duration{}
 	if rng.Chance(15) {
 		return vfGenKillRace(rng)
+	}
+	if rng.Chance(9) {
+		return vfGenZombieAsker(rng)
 	}
 	nAskers = 1 + rng.Intn(5)
 	nResp = 1 + rng.Intn(3)
@@ -320,8 +363,20 @@ func vfRunFutures(nAskers, nResp int, asks []vfAskSpec, kills map[int]time.Durat
 		add("harness-error", "start", "%v", err)
 		return
 	}
-	for k := 0; k < nAskers; k++ {
-		w.spawnTop(&vfSpec{Name: fmt.Sprintf("k%d", k), AskTimeout: vfFutAskerDefault[k]})
+	if len(vfFutPanicAt) > 0 {
+		sup := &vfSpec{Name: "ksup", Strategy: vfStratOne, Decisions: []vivid.SupervisionDecision{vivid.SupervisionDecisionRestart}}
+		for k := 0; k < nAskers; k++ {
+			cs := &vfSpec{Name: fmt.Sprintf("k%d", k), AskTimeout: vfFutAskerDefault[k]}
+			if _, fails := vfFutPanicAt[k]; fails {
+				cs.HookFail = map[string]int{"restarted": 1}
+			}
+			sup.Children = append(sup.Children, cs)
+		}
+		w.spawnTop(sup)
+	} else {
+		for k := 0; k < nAskers; k++ {
+			w.spawnTop(&vfSpec{Name: fmt.Sprintf("k%d", k), AskTimeout: vfFutAskerDefault[k]})
+		}
 	}
 	for r := 0; r < nResp; r++ {
 		w.spawnTop(&vfSpec{Name: fmt.Sprintf("r%d", r)})
@@ -354,6 +409,9 @@ func vfRunFutures(nAskers, nResp int, asks []vfAskSpec, kills map[int]time.Durat
 	for k, t := range kills {
 		acts = append(acts, action{t, "kill", vfAskSpec{}, k})
 	}
+	for k, t := range vfFutPanicAt {
+		acts = append(acts, action{t, "panic", vfAskSpec{}, k})
+	}
 	sort.SliceStable(acts, func(i, j int) bool { return acts[i].at < acts[j].at })
 	closedAt := map[int]time.Duration{}
 	pipedAt := map[int]time.Duration{}
@@ -383,6 +441,8 @@ func vfRunFutures(nAskers, nResp int, asks []vfAskSpec, kills map[int]time.Durat
 			go func(ac action) {
 				defer wg.Done()
 				switch ac.kind {
+				case "panic":
+					w.sys.Tell(w.ref(fmt.Sprintf("k%d", ac.k)), &vfCmd{ID: w.newID(), Op: "panic"})
 				case "kill":
 					w.sys.Kill(w.ref(fmt.Sprintf("k%d", ac.k)), false, "vf-fut")
 				case "close", "pipe":
@@ -516,6 +576,13 @@ func vfRunFutures(nAskers, nResp int, asks []vfAskSpec, kills map[int]time.Durat
 		}
 		if ct, ok := closedAt[id]; ok {
 			cands = append(cands, cand{ct, "closed"})
+		}
+		if tp, fails := vfFutPanicAt[sp.Asker]; fails && tp >= r.askedAt && first.errK == "dead" {
+			if d := first.at - tp; d <= vfFutTol+time.Microsecond && d >= -vfFutTol {
+				// completed with actor-dead when the incarnation that asked ended in the restart: legitimate
+				outcomes[first.errK]++
+				goto forwarders
+			}
 		}
 		if vfFutTol > 0 {
 			// inject tier: delays inside vivid calls shift the instants observed at the API boundary and reorder
@@ -669,12 +736,12 @@ func vfRunFutureCases(t *testing.T, R *verifrt.Report, n int) {
 	}
 }
 
-const vfFutRule = "PRNG scenarios in a synctest bubble: 1-50 Asks from 1-5 asker actors to scripted responders {reply now, reply after d in 1ns..2s, never, reply twice}, timeouts {1ns, 1us, 1ms, 10ms, 100ms, 0 (= none), default: the asker's own WithActorDefaultAskTimeout (50 ms / 300 ms / 1.5 s) if set, else the system's WithActorSystemDefaultAskTimeout (40 ms / 700 ms) if set, else 1 s}, 1-8 goroutines per future blocked in Result()/Wait(), Close and PipeTo (1-2 forwarder actors) from other goroutines before / at / after completion, asker killed at a chosen instant; actions of one virtual instant race for real. Oracle: all observers of a future agree on (value, error, instant); the value is the first reply carrying the future's own ask id; the completion is the earliest of {first reply instant, ask+timeout, asker kill, Close} with the matching outcome (ties at one instant accepted either way); each forwarder gets exactly one PipeResult equal to Result(); afterwards the registry and futureAgents hold nothing. non-trivial+distinct = distinct scenarios with >= 1 completed future"
+const vfFutRule = "PRNG scenarios in a synctest bubble: 1-50 Asks from 1-5 asker actors to scripted responders {reply now, reply after d in 1ns..2s, never, reply twice}, timeouts {1ns, 1us, 1ms, 10ms, 100ms, 0 (= none), default: the asker's own WithActorDefaultAskTimeout (50 ms / 300 ms / 1.5 s) if set, else the system's WithActorSystemDefaultAskTimeout (40 ms / 700 ms) if set, else 1 s}, 1-8 goroutines per future blocked in Result()/Wait(), Close and PipeTo (1-2 forwarder actors) from other goroutines before / at / after completion, asker killed at a chosen instant; askers that fail with Asks outstanding, are restarted, turn into zombies (failing Restarted hook) and are killed later; actions of one virtual instant race for real. Oracle: all observers of a future agree on (value, error, instant); the value is the first reply carrying the future's own ask id; the completion is the earliest of {first reply instant, ask+timeout, asker kill, Close} with the matching outcome (ties at one instant accepted either way); each forwarder gets exactly one PipeResult equal to Result(); afterwards the registry and futureAgents hold nothing. non-trivial+distinct = distinct scenarios with >= 1 completed future"
 
 func TestVerif_futures(t *testing.T) {
 	R := verifrt.NewReport("futures", vfFutRule)
 	defer R.Flush()
-	n := verifrt.EnvInt("VERIF_N", 2000)
+	n := verifrt.EnvInt("VERIF_N", 4000)
 	if verifrt.Thorough() {
 		n = 100000
 	}
